@@ -237,6 +237,26 @@ def _merge_spec(I, paths, observe):
 
 
 TASK_BUDGET_S = int(os.environ.get("PYVC_TASK_BUDGET_S", "420"))
+CONFIRMED_CAP_TASK = int(os.environ.get("PYVC_CONFIRMED_CAP_TASK", "3"))
+CONFIRMED_CAP_RUN = int(os.environ.get("PYVC_CONFIRMED_CAP_RUN", "12"))
+CONFIRMED_COUNTER = None        # multiprocessing.Value shared by the workers of one run (props.common.run_tasks)
+CAPS_ENABLED = True             # switched off by props.common when KNOWN_FINDINGS.txt lists an open finding
+
+
+def _count_confirmed():
+    c = CONFIRMED_COUNTER
+    if c is not None:
+        with c.get_lock():
+            c.value += 1
+
+
+def _confirmed_enough(here):
+    if not CAPS_ENABLED:
+        return False
+    if here >= CONFIRMED_CAP_TASK:
+        return True
+    c = CONFIRMED_COUNTER
+    return c is not None and c.value >= CONFIRMED_CAP_RUN
 
 
 def _run(task, I, res, seed, tier):
@@ -266,11 +286,17 @@ def _run(task, I, res, seed, tier):
     res["shared_writes"] = sorted(sw)
 
     by_pc = {id(p["pc"]): p for p in code_paths}
+    confirmed_here = [0]
 
     def solve_clause(name, hyps, goal, kind="vc"):
         """discharge: assumptions ∧ hyps ⇒ goal"""
         if time.time() - t_start > TASK_BUDGET_S:
             obls.append(obligation(name, "undecided", "none (task time budget exhausted)", 0.0, kind=kind))
+            return False
+        if kind != "cover" and _confirmed_enough(confirmed_here[0]):
+            # the run already reports a violation with a natively confirmed input: the remaining obligations of this
+            # task are not tried (undecided, never counted as discharged) - keeps a broken tree from taking hours
+            obls.append(obligation(name, "undecided", "none (skipped: violations already confirmed natively in this run)", 0.0, kind=kind))
             return False
         fs = list(I.assumptions) + list(hyps) + [z3.Not(as_formula(goal))]
         fs = canon.canonicalise(fs, getattr(I, "domains", {}), getattr(I, "term_domains", ()))
@@ -330,6 +356,9 @@ def _run(task, I, res, seed, tier):
                     else:
                         detail = "NOWITNESS-UF " + detail
             obls.append(obligation(name, "refuted", backend, secs, witness=wit, detail=detail, kind=kind))
+            if detail.startswith("CONFIRMED"):
+                confirmed_here[0] += 1
+                _count_confirmed()
             return False
         obls.append(obligation(name, "undecided", backend, secs, kind=kind))
         return False
@@ -404,9 +433,14 @@ def _frame_replay(task, res, seed, what):
     """a path writes to state that outlives the call: confirm natively by comparing a snapshot of the library's
     process-wide state before and after running sampled calls"""
     from . import statewatch
+    if _confirmed_enough(0):
+        res["obligations"].append(obligation(
+            f"{task.name}: writes only to objects allocated during the call", "refuted", "pyvc write log", 0.0, witness=None,
+            detail=f"NOWITNESS {what}; native confirmation skipped: violations already confirmed natively in this run", kind="frame"))
+        return
     rnd = random.Random(seed + 5)
     before = statewatch.snapshot()
-    for _ in range(60):
+    for _ in range(20):
         s = task.sample(rnd)
         if s is None:
             s = {}
@@ -438,6 +472,7 @@ def _frame_replay(task, res, seed, what):
                 detail=f"CONFIRMED natively: after the call the library's process-wide state differs: {changed} ({what})",
                 kind="frame"))
             res["error"] = None
+            _count_confirmed()
             return
         if not s:
             break
